@@ -10,12 +10,13 @@ package dvsim
 
 import (
 	"bytes"
-	"os"
 	"fmt"
+	"os"
 	"runtime"
 	"sort"
 	"strings"
 	"sync"
+	"sync/atomic"
 	"testing"
 	"testing/synctest"
 	"time"
@@ -356,9 +357,9 @@ func (Engine) Generate(prop string, r *kit.Rand, tier string) *kit.Scenario[Conf
 		}
 		switch r.Weighted([]int{wTick, wDeliver, wDrop, wDup, wAdv, wLink, wCrash, wPfx, wReface, wDead, wMgmt, wCorrupt, wHold, wSendErr}) {
 		case 13:
-			// a router's socket refuses the next few packets (they are lost; what was to be sent must be sent again
-			// by whatever retries the protocol has)
-			sc.Ops = append(sc.Ops, Op{Op: "senderr", R: r.Intn(c.N), K: r.Range(1, 4)})
+			// a router's socket refuses packets for a while (they are lost; what was to be sent must be sent again by
+			// whatever retries the protocol has)
+			sc.Ops = append(sc.Ops, Op{Op: "senderr", R: r.Intn(c.N), Ms: kit.Pick(r, []int{0, 0, 1, 10, 100, 1000})})
 		case 12:
 			x, pt := r.Intn(c.N), kit.Pick(r, []string{"rib-update", "rib-update", "fib-update"})
 			k := fmt.Sprintf("%d|%s", x, pt)
@@ -572,10 +573,12 @@ type simFace struct {
 	onPkt   func(r enc.ParseReader) error
 	mu      sync.Mutex // Send is called from several goroutines of a router (a real face serialises sends too)
 	out     [][]byte
-	// failNext: the next sends of routing packets fail with a transient error, as a socket does when its buffer
-	// is full (management commands have their own failure fault and retry budget)
-	failNext int
-	onFail   func()
+	// failUntil: until that (simulated) instant every send of a routing packet fails with a transient error, as a
+	// socket does while its buffer is full (management commands have their own failure fault and retry budget).
+	// A window of time rather than a number of packets: several goroutines of a router send at the same instant,
+	// and which of them would meet "the next n" is the Go scheduler's choice
+	failUntil time.Time
+	onFail    func()
 }
 
 // drain takes what has been sent so far, in a canonical order (several goroutines
@@ -626,10 +629,9 @@ func (f *simFace) Send(pkt enc.Wire) error {
 	}
 	f.mu.Lock()
 	defer f.mu.Unlock()
-	if f.failNext > 0 {
+	if !f.failUntil.IsZero() && !time.Now().After(f.failUntil) {
 		raw := pkt.Join()
 		if !bytes.Contains(raw, []byte("\x08\x09localhost\x08\x03nfd")) {
-			f.failNext--
 			if f.onFail != nil {
 				f.onFail()
 			}
@@ -679,6 +681,7 @@ type message struct {
 type world struct {
 	gmu              sync.Mutex
 	gates            map[string]*gate
+	sendErrs         atomic.Int64
 	gateWaits        int
 	corruptDelivered int
 	ctx              *kit.Ctx
@@ -1414,8 +1417,8 @@ func (w *world) run() {
 		case "senderr":
 			if n := w.nodes[o.R%c.N]; n.face != nil {
 				n.face.mu.Lock()
-				n.face.failNext = max(1, min(o.K, 4))
-				n.face.onFail = func() { w.ctx.Fault("send-error") }
+				n.face.failUntil = time.Now().Add(time.Duration(max(0, min(o.Ms, 2000))) * time.Millisecond)
+				n.face.onFail = func() { w.sendErrs.Add(1) } // (called from the routers' goroutines)
 				n.face.mu.Unlock()
 			}
 		case "mgmtfail":
@@ -1494,6 +1497,9 @@ func (w *world) run() {
 
 // windDown ends every goroutine of every router ever started (time stops when the bubble's root returns).
 func (w *world) windDown() {
+	if n := w.sendErrs.Load(); n > 0 {
+		w.ctx.Faults["send-error"] += n
+	}
 	w.releaseGate("", 0)
 	for _, n := range w.nodes {
 		w.stopNode(n)
